@@ -287,6 +287,7 @@ func_sigs = {}   # cname -> (ret T, [arg T], va)
 gstrings = {}
 gstrings_raw = {}
 globals_ = []    # (cname, T, init text or None, const)
+GLOBAL_IR_NAME = {}
 i = 0
 type_re = re.compile(r'^(%(?:"[^"]*"|[-A-Za-z0-9_.$]+)) = type (.*)$')
 for ln in lines:
@@ -359,7 +360,7 @@ for ln in lines:
     init = p.rest()
     init = re.sub(r',\s*(align \d+|comdat.*|section ".*?"|!dbg.*|no_sanitize.*)\s*$', '', init)
     init = re.sub(r',\s*(align \d+|comdat(\([^)]*\))?|section "[^"]*")', '', init).strip()
-    globals_.append((cid(m.group(1)), t, init if init else None, const))
+    globals_.append((cid(m.group(1)), t, init if init else None, const)); GLOBAL_IR_NAME[cid(m.group(1))] = m.group(1)
     ms = re.match(r'c"(.*)\\00"$', init or '')
     if ms:
         raw = re.sub(r'\\([0-9A-Fa-f]{2})', lambda k: chr(int(k.group(1), 16)), ms.group(1))
@@ -722,8 +723,69 @@ defined = set()
 body_out = out; out = []
 
 # globals
+# CBMC 6.11 returns unconstrained values for a symbolic-offset read through a pointer cast to a different aggregate type
+# when the object contains array members (byte_extract lowering). LLVM gives array constants with zero runs an anonymous
+# struct type <{ T, T, [k x T] }> and accesses them through `bitcast (... to [N x T]*)`. Such globals are declared with
+# the array type they are accessed as, so that the accesses are typed.
+def split_top(s):
+    parts, depth, cur = [], 0, ''
+    for ch in s:
+        if ch in '([{<': depth += 1
+        if ch in ')]}>': depth -= 1
+        if ch == ',' and depth == 0: parts.append(cur.strip()); cur = ''
+        else: cur += ch
+    if cur.strip(): parts.append(cur.strip())
+    return parts
+def reshape_global(gname_ir, t, init):
+    if t.kind != 'lit' or not t.elems or init is None: return None
+    X = None; n = 0
+    for e in t.elems:
+        ex = e.of if e.kind == 'arr' else e
+        if X is None: X = ex
+        if tstr(ex) != tstr(X): return None
+        n += e.n if e.kind == 'arr' else 1
+    if X.kind not in ('named', 'lit', 'int', 'ptr'): return None
+    # every other mention of the global must be a bitcast to [n x X]*
+    pat = re.escape(gname_ir)
+    uses = [m.start() for m in re.finditer(pat + r'(?![-A-Za-z0-9_.$])', src)]
+    want = '* %s to [%d x %s]*)' % (gname_ir, n, tstr(X).replace(',', ', '))
+    ok_uses = 0
+    for u in uses:
+        if src.startswith(gname_ir + ' = ', u) and (u == 0 or src[u - 1] == '\n'): continue
+        tail = src[u:u + len(gname_ir) + 400]
+        m = re.match(pat + r' to \[(\d+) x ', tail)
+        if not m or int(m.group(1)) != n: return None
+        ok_uses += 1
+    if not ok_uses: return None
+    p = P(init)
+    if p.eat('zeroinitializer'): return T('arr', n=n, of=X), '{0}'
+    op = '<{' if p.peek('<{') else '{'
+    p.expect(op); vals = []
+    close = '}>' if op == '<{' else '}'
+    while True:
+        et = ptype(p); v = pvalue(p, et, lambda nn: nn)
+        if et.kind == 'arr':
+            if v in ('{0}',): vals += [zero(X) if X.kind in ('int', 'ptr') else '{0}'] * et.n
+            else:
+                inner = v.strip()
+                if not (inner.startswith('{{') and inner.endswith('}}')): return None
+                vals += split_top(inner[2:-2])
+        else: vals.append(v)
+        if p.eat(close): break
+        p.expect(',')
+    if len(vals) != n: return None
+    return T('arr', n=n, of=X), '{{' + ','.join(vals) + '}}'
+
 gl_out = []
-for (g, t, init, const) in globals_:
+reshaped = []
+for gi, (g, t, init, const) in enumerate(globals_):
+    try:
+        rs = reshape_global(GLOBAL_IR_NAME[g], t, init)
+    except Exception as e:
+        rs = None
+    if rs:
+        t, v = rs; reshaped.append(g)
+        gl_out.append('%s = %s;' % (decl(t, g), v)); continue
     d = decl(t, g)
     if init is None or init == '':
         gl_out.append('extern %s;' % d); continue
@@ -830,6 +892,6 @@ if ARGS.report:
     import json
     json.dump({'defined': [f[0][1:].strip('"') for f in funcs if f[5] is not None and not (cid(f[0]) in nobody or f[0][1:].strip('"') in nobody)],
                'declared': [f[0][1:].strip('"') for f in funcs if f[5] is None],
-               'errors': [[a, b] for a, b in errors]}, open(ARGS.report, 'w'))
+               'errors': [[a, b] for a, b in errors], 'reshaped_globals': reshaped}, open(ARGS.report, 'w'))
 for e in errors: print('ERR', e, file=sys.stderr)
 print('functions: %d translated, %d errors' % (sum(1 for f in funcs if f[5] is not None), len(errors)), file=sys.stderr)
